@@ -49,3 +49,98 @@ def parse_all_microseconds():
     t0 = time.time()
     p = subprocess.run([VENV_PY, "-c", code], capture_output=True, text=True, timeout=600, cwd="/repo")
     return p.stdout.strip() == "0", time.time() - t0
+
+
+# ---------------------------------------------------------------------------------------------------------------------
+# F3: the sqlite time encoding is lossless for instants:  for every instant T = 1000*k microseconds after the epoch with
+#     0 <= T <= 2100-01-01,   fromtimestamp(((T/10**6) * 1000000) / 1000000, utc) == T      (to the microsecond)
+# where /, * are IEEE-754 binary64 operations with round-to-nearest-even, exactly as CPython performs them:
+#     ts = T / 10**6            (int / int true division: correctly rounded)             [datetime.timestamp()]
+#     m  = ts * 1000000         (correctly rounded product)                               [what insert stores]
+#     q  = m / 1000000          (correctly rounded quotient)                              [_rows_to_events]
+#     fromtimestamp(q): i = floor(q), p = RN((q - i) * 10**6), microseconds = i*10**6 + round_half_even(p)
+# Proof: "binade-split exact rounding" in linear integer/real arithmetic.  Inside one binade [2^e, 2^(e+1)) a correctly
+# rounded result y of the real x satisfies: y is a multiple of ulp = 2^(e-52) and |y - x| <= ulp/2.  (Ties are
+# over-approximated: both neighbours are allowed - a superset of the real behaviour, so `unsat` is a proof.)  The domain is
+# cut into cells in which T/10**6 and T each stay inside one binade; T is a multiple of 1000 and therefore never within 8 of a
+# power of two, so ts * 10**6 (within 0.25 of T) stays in T's binade.  One query per cell: the decoded microsecond count is T.
+LIMIT_2100_US = 4102444800 * 10 ** 6
+
+
+def f3_cells(limit_us=LIMIT_2100_US, timeout_s=60, claim="decoded"):
+    """claim='decoded': the lemma.  claim='stored' (negative control): 'the stored float equals T', which is false for small T -
+    the same encoding must refute it."""
+    from fractions import Fraction
+    t0 = time.time()
+    cells = 0
+    worst = 0.0
+    # binades of x1 = T / 10^6 (e) and of T itself (f); T >= 1000
+    for e in range(-10, 33):
+        lo1, hi1 = Fraction(2) ** e * 10 ** 6, Fraction(2) ** (e + 1) * 10 ** 6        # T in [lo1, hi1)
+        for f in range(9, 53):
+            lo2, hi2 = 2 ** f, 2 ** (f + 1)
+            lo, hi = max(lo1, lo2, 1000), min(hi1, hi2, limit_us + 1)
+            if lo >= hi:
+                continue
+            cells += 1
+            u1 = Fraction(2) ** (e - 52)
+            u2 = Fraction(2) ** (f - 52)
+            T, n1, n2, n3, i, r = z3.Int("T"), z3.Int("n1"), z3.Int("n2"), z3.Int("n3"), z3.Int("i"), z3.Int("r")
+            ts, m, q, p = z3.Real("ts"), z3.Real("m"), z3.Real("q"), z3.Real("p")
+            Q = lambda fr: z3.RealVal(str(fr))
+            k = z3.Int("k")
+            dom = [T == 1000 * k, z3.ToReal(T) >= Q(lo), z3.ToReal(T) < Q(hi)]
+            # ts = RN(T / 10^6) in binade e (the result may be the upper end point 2^(e+1): still a multiple of u1)
+            rn1 = [ts == z3.ToReal(n1) * Q(u1), ts - z3.ToReal(T) / 1000000 <= Q(u1 / 2), z3.ToReal(T) / 1000000 - ts <= Q(u1 / 2)]
+            # m = RN(ts * 10^6) in binade f
+            rn2 = [m == z3.ToReal(n2) * Q(u2), m - ts * 1000000 <= Q(u2 / 2), ts * 1000000 - m <= Q(u2 / 2)]
+            s = z3.Solver()
+            s.set("timeout", timeout_s * 1000)
+            s.add(*dom, *rn1, *rn2)
+            # q = RN(m / 10^6): m / 10^6 is in the binade of T / 10^6 (T is a multiple of 1000, m within 1 of T: a binade boundary
+            # 2^e * 10^6 of T is met exactly or missed by at least 999), i = floor(q), p = RN((q - i) * 10^6) with an absolute error of
+            # at most 2^-34 (p < 2^20, so half an ulp is at most 2^-34), r = nearest integer to p (ties: either)
+            s.add(q == z3.ToReal(n3) * Q(u1), q - m / 1000000 <= Q(u1 / 2), m / 1000000 - q <= Q(u1 / 2))
+            s.add(z3.ToReal(i) <= q, q < z3.ToReal(i) + 1)
+            s.add(p - (q - z3.ToReal(i)) * 1000000 <= Q(Fraction(1, 2 ** 34)), (q - z3.ToReal(i)) * 1000000 - p <= Q(Fraction(1, 2 ** 34)))
+            s.add(z3.ToReal(r) - p <= Q(Fraction(1, 2)), p - z3.ToReal(r) <= Q(Fraction(1, 2)))
+            s.add((i * 1000000 + r != T) if claim == "decoded" else (m != z3.ToReal(T)))
+            t1 = time.time()
+            res = s.check()
+            worst = max(worst, time.time() - t1)
+            if res != z3.unsat:
+                return {"ok": False, "cell": (e, f), "result": str(res), "cells": cells, "time_s": round(time.time() - t0, 2)}
+    return {"ok": True, "cells": cells, "time_s": round(time.time() - t0, 2), "worst_cell_s": round(worst, 3)}
+
+
+def f3_sample(n=200000, seed=1):
+    """CPython cross-check of F3 on random instants and on every instant next to a binade boundary of T/10^6 or of T."""
+    code = f"""
+import random
+from datetime import datetime, timezone, timedelta
+E = datetime(1970, 1, 1, tzinfo=timezone.utc)
+hi = {LIMIT_2100_US}
+random.seed({seed})
+pts = [random.randrange(0, hi // 1000 + 1) * 1000 for _ in range({n})]
+for e in range(-10, 33):
+    c = int(2 ** e * 10 ** 6) // 1000 * 1000
+    pts += [c + d * 1000 for d in range(-3, 4)]
+for f in range(9, 53):
+    c = 2 ** f // 1000 * 1000
+    pts += [c + d * 1000 for d in range(-3, 4)]
+bad = 0
+for us in pts:
+    if not (0 <= us <= hi):
+        continue
+    dt = E + timedelta(microseconds=us)
+    m = dt.timestamp() * 1000000
+    back = datetime.fromtimestamp(m / 1000000, timezone.utc)
+    if back != dt:
+        bad += 1
+print(bad, len(pts))
+"""
+    t0 = time.time()
+    p = subprocess.run([VENV_PY, "-c", code], capture_output=True, text=True, timeout=600)
+    out = p.stdout.split()
+    return {"ok": bool(out) and out[0] == "0", "points": int(out[1]) if len(out) > 1 else 0, "time_s": round(time.time() - t0, 2),
+            "err": p.stderr[-300:]}
